@@ -332,6 +332,9 @@ def run(chk):
     from . import c10_adv
     c10_adv.run_sweep(chk)
     phases["E"] = round(time.time() - chk.t0, 1)
+    # ------------------------------------------------------------------ (F) native loops over huge lazy sources with builtin callbacks
+    c10_adv.run_loop_sweep(chk)
+    phases["F"] = round(time.time() - chk.t0, 1)
     # ------------------------------------------------------------------ (C) the gate at the beginning of a user call
     gate = [
         # (program, limits, model request, what the model's answer means for the program)
